@@ -1,5 +1,5 @@
 # replay of a bounded stand-in violation (C06): re-run native/c06_measure.py
 import sys
-print('fock(pure=False) measure_fock([2, 0]) reported [1, 0]: the unmeasured mode(s) [1] are not in the conditional state of that outcome (max diff 0.678)')
+print('post-selected heterodyne on mode 2 of 3: gaussian and bosonic conditional states differ (max 0.34)')
 print('REPLAY-VIOLATION')
 sys.exit(1)
